@@ -414,7 +414,7 @@ pub fn gen_world(base: u64, run: u64, profile: Profile) -> World {
             let iter_bias = if profile == Profile::C09 { 78 } else { 55 };
             // the iterator family gets `iter_bias` percent; the rest is split with fixed weights
             // find 12, replace 8, nested 5, clone 6, rewrite 5, compile 6 (of 42)
-            let r = if wl.chance(iter_bias, 100) { 0 } else { iter_bias + wl.below(43) };
+            let r = if wl.chance(iter_bias, 100) { 0 } else { iter_bias + wl.below(46) };
             let mut op = if r < iter_bias {
                 // iterator family
                 if open.is_empty() || (open.len() < 3 && wl.chance(1, 4)) {
@@ -489,6 +489,11 @@ pub fn gen_world(base: u64, run: u64, profile: Profile) -> World {
                 let re = wl.below(nre as u64) as u32;
                 let hay = pick_hay(&mut wl, ReRef::Shared(re), &regexes, &clone_src);
                 OpKind::Compile { re, hay }
+            } else if r < iter_bias + 45 {
+                // panic in user code while the library's iterator is alive
+                let re = pick_re(&mut wl, &clones);
+                let hay = pick_hay(&mut wl, re, &regexes, &clone_src);
+                OpKind::ReplacePanic { re, hay, k: 1 + wl.below(3) as u32 }
             } else {
                 // a long history on one object: the same find repeated many times
                 let re = pick_re(&mut wl, &clones);
@@ -500,7 +505,7 @@ pub fn gen_world(base: u64, run: u64, profile: Profile) -> World {
             if let OpKind::ReplaceNested { re: ReRef::Shared(i), .. } = &op {
                 let _ = i;
             }
-            let searching = matches!(op, OpKind::Next { .. } | OpKind::Drain { .. } | OpKind::Find { .. } | OpKind::Replace { .. } | OpKind::ReplaceNested { .. } | OpKind::Compile { .. } | OpKind::CloneRegex { .. } | OpKind::Burst { .. });
+            let searching = matches!(op, OpKind::Next { .. } | OpKind::Drain { .. } | OpKind::Find { .. } | OpKind::Replace { .. } | OpKind::ReplaceNested { .. } | OpKind::Compile { .. } | OpKind::CloneRegex { .. } | OpKind::Burst { .. } | OpKind::ReplacePanic { .. });
             let cancel_at = if searching && cancel_pct > 0 && wl.chance(cancel_pct, 100) {
                 match wl.below(4) {
                     0 => 1 + wl.below(4),
